@@ -181,11 +181,12 @@ func checkC09(c *Ctx) {
 			nState++
 			s, _ := constStr(v)
 			key := fmt.Sprintf("state := %s in %s", s, shortFn(f))
-			gs := m.GuardsAt(in)
+			own := m.ownerOf(f)
+			gs := m.unitGuards(own, in)
 			live, how, lits := m.livenessLits(gs)
 			lock := la.MustBefore(in)[m.implMuW()]
 			for _, l := range lits {
-				if ok, at := m.readsUnderLock(l, f, la, m.path(m.Mu)); !ok && live {
+				if ok, at := m.readsUnderLock(l, own, la, m.path(m.Mu)); !ok && live {
 					live = false
 					c.viol("R1", key, in, "the run-liveness test (%s) is made before the election mutex is taken (%s read at %s): Stop can store STOPPED between the test and the lock, and this store then turns STOPPED back into %s", how, clip(l.S.String(), 80), c.posOf(at), s)
 					return
